@@ -210,7 +210,10 @@ def run(run, tier, loadcfg):
     run.assumptions = ['amplitude abstraction: conversions are the identity on the real amplitude, EQUILIBRIUM is amplitude 0, comparisons in a format agree with comparisons of amplitudes (C01/C02)',
                        'integer truncation in the round trip through the float companion is not decided']
     for cfg in ['std-debug'] + (['nostd'] if tier == 'thorough' else []):
-        cx = Ctx(loadcfg(cfg))
+        fx_ = loadcfg(cfg, optional=(cfg == 'nostd'))
+        if fx_ is None:
+            continue
+        cx = Ctx(fx_)
         check_rectifiers(run, cx, cfg)
         check_detector(run, cx, cfg)
         check_wiring(run, cx, cfg)
